@@ -291,7 +291,7 @@ def run(ctx):
                        "present-after-coercion, rejected; a case is non-trivial if some step notifies or raises; "
                        "distinct = distinct (validators, target, initial contents, operation list)")
     rnd = random.Random(ctx.seed)
-    n, maxlen = (1500, 10) if ctx.tier == "quick" else (30000, 30)
+    n, maxlen = (1500, 10) if ctx.tier == "quick" else (24000, 30)
     if ctx.replay:
         cases = [json.load(open(ctx.replay))["replay"]["case"]]
     else:
